@@ -133,6 +133,10 @@ impl Task {
     }
 
     pub fn is_emit_disabled(&self) -> bool {
+        // a branch never reports to the client, also when it is closed before it has been initialized
+        if self.is_kind(NodeKind::Branch) {
+            return true;
+        }
         self.with_data(|data| data.get::<bool>(consts::TASK_EMIT_DISABLED))
             .unwrap_or(false)
     }
